@@ -30,6 +30,16 @@ func nameGen() *rapid.Generator[string] {
 			n = rapid.SampledFrom([]string{" %s#", "%s# ", "\t%s#", "%s#\n", " %s # ", "%s two words#", "%s#  "}).Draw(t, "blank-form")
 			n = strings.Replace(n, "%s", rapid.StringMatching(`[A-Za-z_-]{1,4}`).Draw(t, "stem"), 1)
 		}
+		if rapid.IntRange(0, 5).Draw(t, "dots") == 0 {
+			// a registered name may contain dots: it is listed, so it is a valid style, as a whole ("#" = the per-case suffix)
+			n = rapid.SampledFrom([]string{"%s.b#", "%s#.b", "%s#.b.c", "%s.b.c#", ".%s#", "%s#.", "%s..#"}).Draw(t, "dot-form")
+			stem := rapid.StringMatching(`[A-Za-z_-]{1,4}`).Draw(t, "stem")
+			switch strings.ToLower(stem) {
+			case "csv", "html", "json", "markdown", "texttable":
+				stem += "_" // the first section must not be a sub-package name
+			}
+			n = strings.Replace(n, "%s", stem, 1)
+		}
 		// a bare name must not be a sub-package name (case-insensitively); the per-case numeric suffix guarantees that too
 		switch strings.ToLower(n) {
 		case "csv", "html", "json", "markdown", "texttable":
@@ -60,7 +70,7 @@ func caseGen() *rapid.Generator[Case] {
 				op.Which = rapid.IntRange(0, 5).Draw(t, "which")
 				switch op.Subject {
 				case "name", "builtin":
-					op.Form = rapid.SampledFrom([]string{"bare", "bare", "tt.", "Tt.", "TT.", "bare+trail", "pad"}).Draw(t, "form")
+					op.Form = rapid.SampledFrom([]string{"bare", "bare", "tt.", "Tt.", "TT.", "bare+trail", "tt.+trail", "pad"}).Draw(t, "form")
 					op.Trail = rapid.SampledFrom([]string{"compact", "x.y", "wide"}).Draw(t, "trail")
 				case "pkg":
 					op.Form = rapid.SampledFrom([]string{"bare", "flip", "trail", "flip+trail", "pad", "tt."}).Draw(t, "form")
